@@ -22,7 +22,7 @@ REQUIRED_CLASSES = ('obj:AtomGro', 'obj:Residue', 'obj:Molecule', 'obj:Molecule-
                     'src:shipped', 'op:copy', 'op:deep_copy', 'op:move', 'op:move_to', 'op:rotate', 'op:set-positions',
                     'op:set-velocities', 'op:set-velocities-none', 'op:set-ids', 'op:set-resids', 'op:view-index',
                     'op:view-iterate', 'op:view-inplace', 'op:shared-array', 'op:rename-deep-copy', 'op:atoms-property',
-                    'src:alignment-reassigned', 'molecule:residues-sharing-a-number', 'assign:int64', 'assign:strided', 'assign:fortran', 'assign:whole-residue-through-views')
+                    'src:alignment-reassigned', 'copy:with-residues-still-in-use', 'molecule:residues-sharing-a-number', 'assign:int64', 'assign:strided', 'assign:fortran', 'assign:whole-residue-through-views')
 RULE = ('operation histories (<= 40 operations over <= 8 live objects) drawn from {copy, deep_copy, move, move_to, rotate, '
         'set positions/velocities(None)/atom numbers/residue numbers, view assignment by index and by iteration, the same '
         'ndarray handed to two setters, rename on deep copies, mutate what the atoms property returned}. Non-trivial: the '
@@ -264,7 +264,15 @@ def run_case(ctx, case):
             if op == 'copy':
                 if len(objs) >= 8:
                     continue
-                new = obj.copy()
+                if k == 'Molecule' and rng.random() < 0.35:
+                    # the documented new_residues argument, fed with residues that stay in use elsewhere (the molecule's
+                    # own, or those of another copy): the new molecule is isolated all the same
+                    how = int(rng.integers(0, 3))
+                    src_res = obj.residues if how < 2 else list(obj.copy().residues)
+                    new = obj.copy(src_res) if how != 1 else obj.copy(new_residues=list(src_res))
+                    ctx.hit('copy:with-residues-still-in-use')
+                else:
+                    new = obj.copy()
                 add(new, f'copy of #{t}', e['deep'] and k != 'Molecule')
                 copied = True
             elif op == 'deep_copy':
